@@ -51,6 +51,7 @@ func c09Spaces(tier string) []pairLeg {
 		add("U4", U(4))
 		add("hostile", HostileDocs())
 		add("E2", EditStates(2, 1200))
+		add("deep", Deep(true))
 	} else {
 		add("A3x6", Arr(3, "6"))
 		add("A5x123", Arr(5, "123"))
@@ -61,6 +62,7 @@ func c09Spaces(tier string) []pairLeg {
 		add("A2cont", Arr(2, "cont"))
 		add("U3", U(3))
 		add("hostile", thin(HostileDocs(), 220))
+		add("deep", Deep(true))
 		add("E1", EditStates(1, 200))
 	}
 	return legs
@@ -152,6 +154,20 @@ func runC09(c *engine.Case) engine.Result {
 		}
 		if !ref.Equal(got, bV, ref.List) {
 			fail = "the rendered JSON Patch turns a into " + ref.JSON(got) + ", not b"
+			return
+		}
+		// rendering is a read-only operation: a second rendering of the same diff value must be
+		// the same patch, and the diff must still apply natively afterwards
+		same := mk()
+		p1, _ := same.RenderPatch()
+		p2, err2 := same.RenderPatch()
+		res.Transitions += 2
+		if err2 != nil || p1 != p2 {
+			fail = fmt.Sprintf("rendering the same diff twice gives different JSON Patch documents: %q then %q", p1, p2)
+			return
+		}
+		if after := impl.Patch(c.A, same); !after.OK || !ref.Equal(after.Val, bV, ref.List) {
+			fail = "after RenderPatch the native diff no longer turns a into b: " + after.String()
 			return
 		}
 		bucket = "translated/" + hunkShape(len(hs))
